@@ -26,6 +26,7 @@ EXPLANATION = (
     'public list by one exchange.  It does NOT decide absence of loss/duplication over all interleavings as such.')
 EXPLANATION += ' Added after the seeded-change rounds: ' + 'D1 also: every ordering comparison on the result of an arbitration RMW (T = --tail, H = ++head) is evaluated signed; D3 also: a task that get_task/steal_task hands out is removed from the index range that is restored or re-published (null hole, or head moved past it) on every path on which the returned pointer is non-null (path-sensitive in the returned variable).'
 EXPLANATION += ' Added in the fourth round of seeded changes: ' + 'D9 also: every waiting call of task_group_base (wait, run_and_wait(F), run_and_wait(task_handle)) resets the group context on every exit, normal and exceptional (exit_coverage: CFG paths, catch(...) handlers, scope-exit idioms classified from their code); D6 also: a per-thread reference vertex is destroyed only where get_num_child() == 0 is known for it; the tree folds are derived from the code (free functions every path of which decrements a node counter by RMW) and the root they hand back is released by every caller.'
+EXPLANATION += ' Added later in the fourth round: ' + 'D9 also: every condition that can end a wait loop (a cycle through commit_wait) is re-evaluated between prepare_wait and commit_wait - task_arena::execute on a full arena re-tries occupy_free_slot after registering on the exit monitor.'
 ASSUMPTIONS = ['clang 14 selects the same declarations as the g++ 12 build for the analysed constructs',
                'C++11 memory model; seq_cst RMWs and seq_cst fences are the only full fences',
                'task classes not instantiated by drivers/*.cpp are not analysed']
